@@ -1628,6 +1628,13 @@ class Interp:
                 return
             raise Unsupported("bit_length of symbolic value")
         if isinstance(f, tuple) and f and f[0] == "mapget":
+            # what the map is asked: kept for the rule that compares the
+            # key with the frame's address / instance fields
+            st.notes.append(("mapkey",
+                             kwargs.get("short_address",
+                                        args[0] if args else None),
+                             kwargs.get("instance_number",
+                                        args[1] if len(args) > 1 else None)))
             if f[1] == "none":
                 yield None, env, st
             else:
